@@ -53,6 +53,16 @@ def gen_cases(tier, seed):
             cfg.update(n_update=1, n_live=10, n_batch=int(rng.choice([1, 2])), f_live=1e-3, n_networks=0, n_eff=40,
                        n_shell=1, n_like_new_bound=None, n_points_min=None, enlarge_per_dim=2.0, pool='none')
         hist = drive.gen_history(rng, cfg, kind='plain')
+        if i % 10 == 4:
+            # sampler pool, few bounds, > 10 000 points per shell: the pool path refills a bound's proposal cache while
+            # it still holds left-over points
+            pspec = workloads.gen_problem(rng, family='gauss', d=2, prior='func', blobs='float', vectorized=True)
+            cfg = workloads.gen_cfg(rng, pspec, pool='s2', n_batch=500, networks=0)
+            cfg.update(n_live=200, f_live=0.3, n_shell=12000, n_eff=100, n_update=None, n_like_new_bound=None,
+                       periodic=None, filepath=False, discard_exploration=False)
+            hist = [['run_abs', 150000], ['access', ['posterior_blobs']]]
+            cases.append({'i': i, 'seed': seed, 'prob': pspec, 'cfg': cfg, 'hist': hist, 'n_like_cap': 150000})
+            continue
         cases.append({'i': i, 'seed': seed, 'prob': pspec, 'cfg': cfg, 'hist': hist})
     return cases
 
